@@ -50,19 +50,25 @@ Section C17.
   Proof. exact (scratch_irrelevant encode). Qed.
 
   (** The key/value metadata of the configuration is a Go map: whatever order
-      its iteration produces, the writer starts from the same sorted list and
-      emits the same bytes. *)
+      its iteration produces, the writer starts from the same list, sorted by
+      key (then value); every footer of a file written without
+      SetKeyValueMetadata carries exactly that sorted list (also after any
+      number of Resets); and the emitted bytes do not depend on the order. *)
   Theorem C17_kv_sorted : forall cfg m1 m2 ops,
     Permutation m1 m2 ->
     sort_kv m1 = sort_kv m2
     /\ StronglySorted kv_le (sort_kv m1)
     /\ Permutation m1 (sort_kv m1)
+    /\ (existsb is_setkv ops = false ->
+        Forall (footer_kv (sort_kv m1)) (observe (run encode (init_of_map encode cfg m2) ops)))
     /\ observe (run encode (init_of_map encode cfg m1) ops) = observe (run encode (init_of_map encode cfg m2) ops).
   Proof.
     intros cfg m1 m2 ops P. repeat split.
     - exact (sort_kv_perm m1 m2 P).
     - exact (sort_kv_sorted m1).
     - exact (sort_kv_perm_self m1).
+    - intros H. unfold init_of_map. rewrite <- (sort_kv_perm m1 m2 P).
+      exact (footers_carry_metadata encode cfg (sort_kv m1) ops H).
     - exact (kv_order_irrelevant encode cfg m1 m2 ops P).
   Qed.
 End C17.
